@@ -49,6 +49,18 @@ Theorem C20_registries_read_only : forall cells astw fine reg sched ps,
 Proof. exact registries_read_only. Qed.
 Print Assumptions C20_registries_read_only.
 
+(* The repair (/repo 960d829: memo on the Row instead of the process-wide cache) keeps the
+   serial semantics "however many times balance is referenced in a row it advances once":
+   for every compiled query without IN-subqueries, executed alone from a cache holding no
+   entry of this thread, the OLD design and the NEW design deliver the same rows.
+   (With a subquery that references balance they differ: C20_shared_cache_reentrancy.) *)
+Theorem C20_repair_preserves_serial :
+  forall (fine : bool) (rows : list posting) (tid : Z) (q : query) (g g' : glob),
+  nosub_query q = true -> cache_foreign tid g ->
+  fst (to_end (exec fine true rows tid q) g) = fst (to_end (exec fine false rows tid q) g').
+Proof. exact repair_preserves_serial. Qed.
+Print Assumptions C20_repair_preserves_serial.
+
 (* ------------------------------------------------------------------ *)
 (* Why the hypothesis matters: the design before /repo 960d829 (module-level
    functools.lru_cache(maxsize=1) on the balance column).                *)
